@@ -28,7 +28,11 @@ class Shape(object):
 
 
 def shape_str(t):
+    if not isinstance(t, tuple):
+        return repr(t)
     k = t[0]
+    if k == "type":
+        return str(t[1])
     if k == "sym":
         return t[1]
     if k == "lit":
@@ -43,7 +47,11 @@ def shape_str(t):
 
 
 def build_shape(w, t):
+    if not isinstance(t, tuple):
+        return t                      # raw python parameter (index, step, width)
     k = t[0]
+    if k == "type":
+        return w.tyobj(sc._sort(w, t[1]))
     if k == "sym":
         return w.symbol(t[1], sc._sort(w, t[2]))
     if k == "lit":
@@ -238,3 +246,57 @@ def pred_prenex(w, n):
     if why:
         return "the matrix is not quantifier free: " + why
     return None
+
+
+def term_shapes():
+    """Skeletons exercising every operator family once or twice, with quantifiers / Boolean terms in
+    unusual positions (inside relations, ITE conditions, function arguments), shadowing binders,
+    shared sub-terms, constant arrays."""
+    a, b, c = S("a"), S("b"), S("c")
+    x, y, z = S("x", INT), S("y", INT), S("z", INT)
+    r, s_ = S("r", REAL), S("s", REAL)
+    BV4 = ("BV", 4)
+    u, v = S("u", BV4), S("v", BV4)
+    st = S("st", ("STRING",))
+    arr = S("arr", ("ARRAY", INT, INT))
+    barr = S("barr", ("ARRAY", INT, BOOL))
+    US = ("CUSTOM", "U")
+    e1 = S("e1", US)
+    qa = [("a", BOOL)]
+    qx = [("x", INT)]
+
+    def f(t):
+        return ("fun", "f", INT, (INT,), t)
+
+    def p(t):
+        return ("fun", "p", BOOL, (INT,), t)
+
+    def g(t):
+        return ("fun", "g", INT, (BOOL,), t)
+    sh = [
+        ("LT", x, y), ("LE", ("Plus", x, y), z), ("Equals", ("Times", x, ("lit", 2, INT)), ("Minus", y, z)),
+        ("LT", ("Ite", a, x, y), z), ("LT", ("Ite", ("forall", qa, ("Or", a, b)), x, y), z),
+        ("Equals", g(("forall", qa, ("Or", a, b))), x), ("Equals", g(("And", a, b)), x),
+        ("And", p(x), ("Not", p(f(y)))), ("Equals", f(f(x)), y),
+        ("forall", qx, ("LT", x, y)), ("And", ("LT", x, y), ("exists", qx, ("LT", y, x))),
+        ("exists", qx, ("forall", [("y", INT)], ("LE", x, y))), ("forall", qa, ("exists", qa, ("Or", a, b))),
+        ("Equals", ("Select", arr, x), y), ("Equals", ("Store", arr, x, y), arr), ("Select", barr, x),
+        ("And", ("Select", barr, x), a), ("Equals", ("Array", ("type", INT), ("lit", 0, INT)), arr),
+        ("Not", ("Equals", ("Array", ("type", INT), ("lit", 0, INT)), arr)),
+        ("Not", ("Equals", ("Array", ("type", US), ("lit", 0, INT)), ("Array", ("type", US), ("lit", 1, INT)))),
+        ("BVULT", u, v), ("Equals", ("BVAdd", u, v), ("BVNot", u)), ("BVSLE", ("BVConcat", u, v), ("BVZExt", u, 4)),
+        ("Equals", ("BVExtract", u, 1, 2), ("BVExtract", v, 0, 1)), ("Equals", ("BVToNatural", u), x),
+        ("LT", ("ToReal", x), r), ("Equals", ("Div", r, s_), r), ("LE", ("Pow", r, ("lit", 2, REAL)), s_),
+        ("Equals", ("Times", x, y), z), ("Equals", ("Times", x, y, z), z),
+        ("Equals", ("StrLength", st), x), ("StrContains", st, ("lit", "a", ("STRING",))),
+        ("Equals", ("IntToStr", x), st), ("Equals", ("StrLength", ("IntToStr", x)), y),
+        ("Equals", ("StrToInt", st), x), ("Equals", ("StrIndexOf", st, st, x), y),
+        ("Equals", e1, S("e2", US)), ("forall", [("e1", US)], ("Equals", e1, S("e2", US))),
+        ("forall", [("u", BV4)], a), ("exists", [("st", ("STRING",))], b),
+        ("And", ("Or", a, b), ("Iff", ("Or", a, b), c)), ("Ite", a, b, c), ("Ite", ("LT", x, y), a, b),
+        ("Implies", ("And", a, ("LT", x, y)), ("Or", b, ("Not", ("LT", x, y)))),
+        ("Iff", a, ("lit", True, BOOL)), ("And", a, ("lit", False, BOOL)),
+        ("Equals", ("Plus", ("Plus", x, y), ("Plus", x, y)), z),
+        ("LT", ("Plus", ("Times", x, ("lit", 3, INT)), ("lit", 1, INT)), ("lit", 7, INT)),
+    ]
+    return [Shape(t) for t in sh]
